@@ -65,6 +65,8 @@ func init() {
 }
 
 func runC02(t *testing.T, c *choice.Stream, r *Result, opt RunOpt) {
+	playOldRev = true
+	defer func() { playOldRev = false }()
 	Bubble(t, c, r, opt, func(e *Env) func() {
 		cf := DrawConf(c)
 		cf.Settings = drawSettings(c, "conn")
